@@ -1,0 +1,9 @@
+//go:build verif
+
+package term
+
+// VerifSetDefaultWidth sets the width GetWidth falls back to when the size of the
+// terminal cannot be read (no terminal on stderr). Verification builds only.
+func VerifSetDefaultWidth(width int) {
+	defaultTermWidth = width
+}
